@@ -2,9 +2,9 @@ package main
 
 import (
 	"encoding/json"
-	"go/types"
 	"flag"
 	"fmt"
+	"go/types"
 	"os"
 	"path/filepath"
 	"regexp"
@@ -153,45 +153,58 @@ func runCheck(o *checkOpts) int {
 		for _, fi := range fis {
 			insts, inames := typeInstances(fi)
 			for ii, inst := range insts {
-				w := newWorld()
-				ex := &Exec{w: w, prog: prog, count: map[string]int{}, heapS: map[string]*Sort{}, heapGo: map[string]types.Type{}, typedKeys: map[string]bool{}, closures: map[string]*closureInfo{}, extUsed: map[string]bool{}}
-				ex.topTsub = inst
-				ex.instName = inames[ii]
-				ex.wrap64 = fi.Spec.IntWidth64
-				rep := funcReport{Name: fi.FullName() + inames[ii]}
-				func() {
-					defer func() {
-						if r := recover(); r != nil {
-							switch e := r.(type) {
-							case unsupportedErr:
-								rep.Unsupported = e.msg
-							case specFail:
-								rep.Unsupported = "contract error: " + e.msg
-							default:
-								panic(r)
+				for attempt := 0; ; attempt++ {
+					restart := false
+					w := newWorld()
+					ex := &Exec{w: w, prog: prog, count: map[string]int{}, heapS: map[string]*Sort{}, heapGo: map[string]types.Type{}, typedKeys: map[string]bool{}, closures: map[string]*closureInfo{}, extUsed: map[string]bool{}}
+					ex.topTsub = inst
+					ex.instName = inames[ii]
+					ex.wrap64 = fi.Spec.IntWidth64
+					rep := funcReport{Name: fi.FullName() + inames[ii]}
+					func() {
+						defer func() {
+							if r := recover(); r != nil {
+								switch e := r.(type) {
+								case restartVerify:
+									restart = true
+									if attempt > 8 {
+										rep.Unsupported = "loop write sets do not stabilise"
+										restart = false
+									}
+								case unsupportedErr:
+									rep.Unsupported = e.msg
+								case specFail:
+									rep.Unsupported = "contract error: " + e.msg
+								default:
+									panic(r)
+								}
 							}
-						}
+						}()
+						ex.verifyFunc(fi)
 					}()
-					ex.verifyFunc(fi)
-				}()
-				rep.Paths = ex.nPaths
-				if rep.Unsupported != "" {
-					genFailures = append(genFailures, rep.Name+": "+rep.Unsupported)
-				}
-				n := 0
-				for _, ob := range ex.obls {
-					if !hasProp(ob.Props, o.prop) {
+					if restart {
 						continue
 					}
-					n++
-					all = append(all, ob)
-					file := filepath.Join(vcDir, sanitizeFile(ob.Name)+".smt2")
-					items = append(items, &solveItem{o: ob, w: w, file: file})
-				}
-				rep.Obligations = n
-				reports = append(reports, rep)
-				for k := range w.assumed {
-					assumed[k] = true
+					rep.Paths = ex.nPaths
+					if rep.Unsupported != "" {
+						genFailures = append(genFailures, rep.Name+": "+rep.Unsupported)
+					}
+					n := 0
+					for _, ob := range ex.obls {
+						if !hasProp(ob.Props, o.prop) {
+							continue
+						}
+						n++
+						all = append(all, ob)
+						file := filepath.Join(vcDir, sanitizeFile(ob.Name)+".smt2")
+						items = append(items, &solveItem{o: ob, w: w, file: file})
+					}
+					rep.Obligations = n
+					reports = append(reports, rep)
+					for k := range w.assumed {
+						assumed[k] = true
+					}
+					break
 				}
 			}
 		}
